@@ -22,8 +22,8 @@ class C15(Prop):
     id = "C15"
     level = "exploration"
     tiers = {
-        "quick": [("plain", 30000), ("jitter", 12000), ("cancel", 12000)],
-        "thorough": [("plain", 700000), ("jitter", 300000), ("cancel", 300000)],
+        "quick": [("plain", 180000), ("jitter", 72000), ("cancel", 72000)],
+        "thorough": [("plain", 3600000), ("jitter", 1440000), ("cancel", 1440000)],
     }
     rule_text = (
         "one case = arrival pattern of 1..12 calls (gaps from {0, eps, period-eps, period, period+eps, period/2, "
